@@ -409,7 +409,7 @@ func (g *rgen) htmlTable(depth int) *Node {
 }
 
 func genRandom(r *rand.Rand) Input {
-	for try := 0; ; try++ {
+	{
 		g := &rgen{r: r, b: newBuilder(), budget: 6 + r.Intn(34)}
 		switch r.Intn(3) {
 		case 0:
@@ -434,7 +434,7 @@ func genRandom(r *rand.Rand) Input {
 		if r.Float64() < 0.05 {
 			root.Kids[0].Float = "left"
 		}
-		if knownDefect(root) == "" || try > 50 {
+		{
 			in := mkInput("random", root)
 			if r.Float64() < 0.05 {
 				// comments before the root element are not part of the tree
